@@ -1,6 +1,7 @@
 import PpciVerif.Gen.Py_leb128
 import PpciVerif.Model.Leb128
 import PpciVerif.Proofs.T1_PyRt
+import PpciVerif.Proofs.T1_PyMask
 /-!
 T1 translation tie for `ppci/utils/leb128.py`: the definitions REGENERATED from the
 source on every run (`Gen.Py_leb128`) equal the hand model `Model.Leb128` that the
@@ -60,7 +61,8 @@ theorem gen_senc_loop (value : Int) : ∀ (data : List Int) (fuel : Nat), value.
     have hb1 : value % 128 < 128 := Int.emod_lt_of_pos _ (by omega)
     simp only [byte, value', signBit, decide_eq_false_iff_not, decide_eq_true_eq] at h
     unfold signed_leb128_encode_loop1
-    simp only [and_127, and_64, PyRt.shrN, Int.reducePow, decide_eq_true_eq, Int.reduceNeg]
+    py_norm
+    simp only [decide_eq_true_eq]
     rw [if_pos (by omega)]
     refine ⟨value / 128, ?_⟩
     simp only [ints, List.map, byte]
@@ -72,7 +74,8 @@ theorem gen_senc_loop (value : Int) : ∀ (data : List Int) (fuel : Nat), value.
     have hb1 : value % 128 < 128 := Int.emod_lt_of_pos _ (by omega)
     simp only [byte, value', signBit, decide_eq_false_iff_not, decide_eq_true_eq] at h
     unfold signed_leb128_encode_loop1
-    simp only [and_127, and_64, PyRt.shrN, Int.reducePow, decide_eq_true_eq, Int.reduceNeg]
+    py_norm
+    simp only [decide_eq_true_eq]
     rw [if_neg (by omega)]
     obtain ⟨v', hv⟩ := ih (data ++ [PyInt.or (value % 128) 128]) f (by simp only [value']; omega)
     refine ⟨v', ?_⟩
@@ -110,7 +113,7 @@ theorem gen_uenc_loop (n : Nat) : ∀ (data : List Int) (fuel : Nat), n + 1 ≤ 
     obtain ⟨f, rfl⟩ : ∃ f, fuel = f + 1 := ⟨fuel - 1, by omega⟩
     simp only [value'] at h
     unfold unsigned_leb128_encode_loop1
-    simp only [and_127, PyRt.shrN, Int.reducePow]
+    py_norm
     rw [if_pos (by omega)]
     refine ⟨(value : Int) / 128, ?_⟩
     simp only [ints, List.map, byte, Int.ofNat_eq_natCast, Int.natCast_emod, Nat.cast_ofNat]
@@ -119,7 +122,7 @@ theorem gen_uenc_loop (n : Nat) : ∀ (data : List Int) (fuel : Nat), n + 1 ≤ 
     obtain ⟨f, rfl⟩ : ∃ f, fuel = f + 1 := ⟨fuel - 1, by omega⟩
     simp only [value'] at h
     unfold unsigned_leb128_encode_loop1
-    simp only [and_127, PyRt.shrN, Int.reducePow]
+    py_norm
     rw [if_neg (by omega)]
     have hb0 : 0 ≤ (value : Int) % 128 := Int.emod_nonneg _ (by omega)
     have hb1 : (value : Int) % 128 < 128 := Int.emod_lt_of_pos _ (by omega)
@@ -153,11 +156,9 @@ theorem gen_unsigned_encode_eq_model (value : Int) (fuel : Nat) (hf : value.natA
 
 theorem ints_length (l : List Nat) : (ints l).length = l.length := by simp [ints]
 
-theorem and128_natCast (b : Nat) : PyInt.and (b : Int) 128 = 0 ↔ b / 128 % 2 = 0 := by
-  rw [and_128]; omega
+theorem and128_natCast (b : Nat) : (b : Int) / 128 % 2 * 128 = 0 ↔ b / 128 % 2 = 0 := by omega
 
-theorem and64_natCast (b : Nat) : PyInt.and (b : Int) 64 ≠ 0 ↔ b / 64 % 2 = 1 := by
-  rw [and_64]; omega
+theorem and64_natCast (b : Nat) : (b : Int) / 64 % 2 * 64 ≠ 0 ↔ b / 64 % 2 = 1 := by omega
 
 theorem or_shift_natCast (result byte shift : Nat) :
     PyInt.or (result : Int) (((byte : Int) % 128) * 2 ^ shift) = ((result ||| ((byte % 128) <<< shift) : Nat) : Int) := by
@@ -183,7 +184,8 @@ theorem gen_udec_loop : ∀ (data : List Nat) (result shift fuel : Nat), data.le
     intro result shift fuel hf
     obtain ⟨f, rfl⟩ : ∃ f, fuel = f + 1 := ⟨fuel - 1, by simp at hf; omega⟩
     unfold unsigned_leb128_decode_loop1
-    simp only [ints_cons, PyRt.next, bind_ok, and_127, shl_natCast, or_shift_natCast, udecLoop]
+    py_norm
+    simp only [ints_cons, PyRt.next, bind_ok, shl_natCast, or_shift_natCast, udecLoop]
     by_cases hb : byte / 128 % 2 = 0
     · rw [if_pos ((and128_natCast byte).2 hb), if_pos hb]
       simp [liftDecU]
@@ -217,7 +219,8 @@ theorem gen_sdec_loop : ∀ (data : List Nat) (result shift : Nat) (byte0 : Int)
     intro result shift byte0 fuel hf
     obtain ⟨f, rfl⟩ : ∃ f, fuel = f + 1 := ⟨fuel - 1, by simp at hf; omega⟩
     unfold signed_leb128_decode_loop1
-    simp only [ints_cons, PyRt.next, bind_ok, and_127, shl_natCast, or_shift_natCast, sdecLoop]
+    py_norm
+    simp only [ints_cons, PyRt.next, bind_ok, shl_natCast, or_shift_natCast, sdecLoop]
     have e7 : (shift : Int) + 7 = ((shift + 7 : Nat) : Int) := by push_cast; rfl
     by_cases hb : byte / 128 % 2 = 0
     · rw [if_pos ((and128_natCast byte).2 hb), if_pos hb, e7]
@@ -242,6 +245,7 @@ theorem gen_signed_decode_eq_model (data : List Nat) (fuel : Nat) (hf : data.len
   unfold signed_leb128_decode signedDecode
   have h' : signed_leb128_decode_loop1 fuel (ints data) 0 0 0 = liftLoopS (sdecLoop 0 0 data) := h
   simp only [h']
+  py_norm
   cases hs : sdecLoop 0 0 data with
   | error e => simp [liftLoopS, liftDecS]
   | ok v =>
